@@ -421,6 +421,58 @@ func runC20(r *Run, verifDir string) {
 		})
 	}
 
+	// published plans are immutable: nothing is written through a pointer obtained from a plan cache
+	for _, fn := range p.OwnFuncs() {
+		if idOf(fn).pkg != ttlvPath {
+			continue
+		}
+		ord := 0
+		allInstrs(fn, func(in ssa.Instruction) {
+			st, ok := in.(*ssa.Store)
+			if !ok {
+				return
+			}
+			var base ssa.Value
+			switch a := st.Addr.(type) {
+			case *ssa.FieldAddr:
+				base = a.X
+			case *ssa.IndexAddr:
+				base = a.X
+			default:
+				return
+			}
+			fromCache := false
+			var back func(v ssa.Value, d int)
+			back = func(v ssa.Value, d int) {
+				if d > 6 || fromCache {
+					return
+				}
+				switch x := v.(type) {
+				case *ssa.TypeAssert:
+					back(x.X, d+1)
+				case *ssa.Extract:
+					back(x.Tuple, d+1)
+				case *ssa.Phi:
+					for _, e := range x.Edges {
+						back(e, d+1)
+					}
+				case *ssa.Call:
+					id := callID(&x.Call)
+					if id.pkg == "sync" && id.recv == "Map" && (id.name == "Load" || id.name == "LoadOrStore" || id.name == "Swap" || id.name == "LoadAndDelete") {
+						if g := globalRoot(x.Call.Args[0], 0); g != nil {
+							fromCache = true
+						}
+					}
+				}
+			}
+			back(base, 0)
+			if fromCache {
+				ord++
+				r.Bad("C20.E6", fmt.Sprintf("%s/write-to-published#%d", fnKey(fn), ord), st.Pos(), "%s writes through a pointer obtained from a plan cache: the entry is visible to every goroutine as soon as it is in the cache, so another goroutine can use the plan before (or while) it is filled in — a nil function, a truncated plan, and a data race", fnKey(fn))
+			}
+		})
+	}
+
 	// ---------------- E5
 	r.Rule("C20.E5", "codec state is per call: no shared coder, fresh version state per top-level coder, Clear resets everything observable", 8)
 	// no package-level or Stream-level coder
